@@ -185,13 +185,34 @@ func ChildMain(scenarios []*Scenario) {
 	}
 }
 
-func runChild(args ...string) ([]byte, error) {
+// errWatchdog is returned by runChildLimit when the child had to be killed.
+var errWatchdog = fmt.Errorf("child killed by the watchdog")
+
+func runChild(args ...string) ([]byte, error) { return runChildLimit(0, args...) }
+
+// runChildLimit runs a child process; with limit > 0 the child is killed when it is
+// still running after that long (it stops by itself when its exploration budget is
+// used up, so this only ends a child whose scheduler is stuck).
+func runChildLimit(limit time.Duration, args ...string) ([]byte, error) {
 	cmd := exec.Command(os.Args[0], args...)
 	cmd.Env = append(os.Environ(), "GOMAXPROCS=2")
 	var out, errb bytes.Buffer
 	cmd.Stdout = &out
 	cmd.Stderr = &errb
-	err := cmd.Run()
+	if err := cmd.Start(); err != nil {
+		return nil, err
+	}
+	killed := make(chan bool, 1)
+	if limit > 0 {
+		tm := time.AfterFunc(limit, func() { killed <- true; cmd.Process.Kill() })
+		defer tm.Stop()
+	}
+	err := cmd.Wait()
+	select {
+	case <-killed:
+		return out.Bytes(), errWatchdog
+	default:
+	}
 	if err != nil {
 		return out.Bytes(), fmt.Errorf("%v: %s", err, tail(errb.String(), 2000))
 	}
@@ -263,10 +284,22 @@ func RunPlans(r *ev.Run, scenarios []*Scenario, plans []Plan) *Summary {
 		pj, _ := json.Marshal(p)
 		var pr PlanResult
 		for attempt := 0; attempt < 2; attempt++ {
-			out, err := runChild("-mc-child", string(pj))
+			// a child stops by itself at its budget; the watchdog only ends a stuck one
+			limit := 3*p.Budget + 10*time.Minute
+			if p.Budget == 0 {
+				limit = 3 * time.Hour
+			}
+			out, err := runChildLimit(limit, "-mc-child", string(pj))
 			pr = PlanResult{}
 			if b := extract(out, "MCRESULT"); b != nil {
 				json.Unmarshal(b, &pr)
+			} else if err == errWatchdog {
+				// A stuck child is a fault of the exploration machinery (a deadlock of the
+				// code under test is a verdict of the scheduler, not a hang): nothing was
+				// decided for this plan.
+				pr.Plan = p
+				pr.StoppedBy = fmt.Sprintf("the watchdog (no result after %s; nothing explored counts)", limit)
+				break
 			} else {
 				pr.Plan = p
 				pr.Error = fmt.Sprintf("child produced no result: %v; stdout tail: %s", err, tail(string(out), 1500))
